@@ -137,6 +137,7 @@ def sig(r):
 
 
 class DateTimeArith(Sub):
+    ambient = True
     name = "datetime_add_subtract"
     n = {"quick": 14000, "thorough": 300000}
     shards = {"quick": 4, "thorough": 8}
@@ -209,6 +210,7 @@ def dur_case(draw):
 
 
 class DurationOps(Sub):
+    ambient = True
     name = "duration_operators"
     n = {"quick": 10000, "thorough": 200000}
     shards = {"quick": 3, "thorough": 8}
@@ -276,6 +278,7 @@ class DurationOps(Sub):
 
 
 class DateArith(Sub):
+    ambient = True
     name = "date_arith"
     backends = ("py",)
     n = {"quick": 8000, "thorough": 150000}
@@ -334,6 +337,7 @@ class DateArith(Sub):
 
 
 class MonthTable(Sub):
+    ambient = True
     """exhaustive: every start month/day of a leap and a non-leap year x delta months -25..25 x delta years"""
     name = "month_table"
     kind = "enum"
